@@ -362,8 +362,8 @@ EXTRA_TEXT = {
            "the type list the type stands (the harness probes all five resolvers with contexts of 15 kinds at every position).",
     "C02": " merklize_into_caller_tree: with WithMerkleTree the entries are added to the caller's tree (every entry a leaf, earlier leaves kept, an existing key an error); driven by C03 with empty and "
            "pre-populated caller trees under every option order.",
-    "C18": " The model and the generator also cover if/then/else, contains (with minContains/maxContains under 2020-12; unknown words under draft-07) and propertyNames: if_then_else_spec, "
-           "then_else_without_if_ignored, contains_spec_draft07, propertyNames_spec.",
+    "C18": " The model and the generator also cover if/then/else, contains (with minContains/maxContains under 2020-12; unknown words under draft-07), propertyNames, patternProperties (a member matched by a pattern is not additional) and "
+           "dependentRequired (2020-12 only): if_then_else_spec, then_else_without_if_ignored, contains_spec_draft07, propertyNames_spec, dependentRequired_spec.",
     "C20": " interleaving_results_total (every load ends with a document or an error, never with neither, under every schedule) and interleaving_failing_url (a URL the origin does not serve is an error "
            "for every thread); the harness's bursts include failing URLs of six kinds.",
     "C08": " smt_resolver_failure_rejected: a resolver error (whatever document accompanies it) or an answer without state information is a rejection, also for the genesis state; the harness's resolver errors "
